@@ -324,13 +324,13 @@ def plot(input_fits, output_dir=None, select_format=("N", 1), plot_max=None,
 
             if flux.ndim > 1:
                 for j in range(flux.shape[1]):
-                    lines.append(np.column_stack([_to_value(s.wav), _to_value(flux)[:, j]]))
+                    lines.append(np.column_stack([s.wav.to(u.micron).value, _to_value(flux)[:, j]]))
                     if color_type in ('full', 'faded'):
                         colors.append(color[color_type][j])
                     else:
                         colors.append(color[color_type])
             else:
-                lines.append(np.column_stack([_to_value(s.wav), _to_value(flux)]))
+                lines.append(np.column_stack([s.wav.to(u.micron).value, _to_value(flux)]))
                 colors.append(color[color_type])
 
             if show_convolved:
